@@ -1,14 +1,32 @@
 """C31 The decision cache remembers what it promises."""
 
+
+def _walk(name, qb, tb):
+    return dict(kind="walk", name="DecisionCache-" + name, module="DecisionCache", pkg="collect/cache", test="TestVerifDecisionCache",
+                harness=["collect/cache/c31_test.go"],
+                cfg={"quick": f"MC_DecisionCache_{name}.cfg", "thorough": f"MC_DecisionCache_{name}_big.cfg"},
+                budget={"quick": qb, "thorough": tb})
+
+
 PROP = dict(
     level="model_checking",
-    technique="TLA+ spec DecisionCache.tla model-checked by TLC; every generated transition replayed into a real cuckooSentCache (spec->code transition tour)",
-    design_ref="DESIGN.md §5 C31",
-    level_text="x",
-    level_note="x",
-    assumptions=[],
-    stages=[dict(kind="walk", name="DecisionCache-drop", module="DecisionCache", pkg="collect/cache", test="TestVerifDecisionCache",
-                 harness=["collect/cache/c31_test.go"],
-                 cfg={"quick": "MC_DecisionCache_drop.cfg", "thorough": "MC_DecisionCache_drop.cfg"},
-                 budget={"quick": 40, "thorough": 240})],
+    technique="TLA+ spec DecisionCache.tla (kept LRU, recent set, add queue, two-generation cuckoo filter as slot-bounded bags, resize) model-checked by TLC; "
+              "every generated transition replayed into a real cuckooSentCache built by NewCuckooSentCache (spec->code transition tour)",
+    design_ref="DESIGN.md §5 C31, §9 (reading of 'filled to capacity since the record')",
+    level_text="TLC explores every order of kept/dropped records, CheckSpan/CheckTrace lookups, add-queue drains, Maintain cycles (future creation at load > 0.5, rotation at load > 0.99), "
+               "recent-set expiry and Resize for 2-3 trace ids, kept capacity 1-3, 4- and 8-slot filters, and checks on the model: the keptCap most recently recorded-or-consulted kept decisions "
+               "answer kept with the recorded rate and reason (KeptRemembered, RecencyOrder, EvictOnlyOldest), Resize keeps the newest min(n,size) (ResizeKeepsNewest), a drained dropped record is answered "
+               "dropped by both lookups even if also recorded kept until the first rotation after it or until the current filter overflows (DroppedRemembered, ObligationEndsOnlyWhenFull), and CheckSpan answers "
+               "dropped from the moment of the record while the recent set holds it (RecordDroppedAnswered, RecentSticks). Four scenario configurations (kept / mix / cap / drop) are dumped as transition graphs and "
+               "every transition is executed on the real cache: the returned record (kept/dropped/none, rate, interned reason, span counts), the Maintain gauges and the Resize error are compared with the model's, "
+               "and the LRU order, filter membership, recent set, queue length, filter loads and capacities after every step.",
+    level_note="Exhaustive only within the bounds (see spec/MC_DecisionCache_*.cfg). The add-queue goroutine is stopped after construction and its loop body is run by the Drain action; Maintain is called directly "
+               "(its internal 1 ms drain time-out is avoided by draining first); recentDroppedIDs runs on a fake clock and only 'all recent entries expire' is explored (C32 covers TTL instants). "
+               "False positives are excluded by choosing trace ids with pairwise distinct fingerprints that may live in either bucket (established through the filter's public API), so the filter is exact for the ids used; "
+               "an insert into a full filter may lose any one fingerprint and every such outcome is accepted. Add-queue overflow (1000 pending ids) is not explored. Concurrency of Record/Check/Resize is C35's subject, not explored here. "
+               "Sample rates above 2^32-1 are truncated by keptTraceCacheEntry (uint32) and are not asserted.",
+    assumptions=["clockwork.FakeClock is faithful", "panmari/cuckoofilter: 4-slot buckets, capacity<=3 -> 1 bucket, 4..7 -> 2 buckets (checked by the harness at Reset)",
+                 "bounded: 2-3 trace ids, kept capacity 1-3, filter of 4/8 slots, add queue <= 2"],
+    stages=[_walk("kept", 20, 120), _walk("mix", 20, 120), _walk("cap", 25, 90), _walk("drop", 30, 120),
+            dict(kind="tlc", name="DecisionCache-full", module="DecisionCache", cfg={"quick": None, "thorough": "MC_DecisionCache_full.cfg"}, workers=8, timeout=540)],
 )
